@@ -52,11 +52,13 @@ impl Timings for MockRadio {
 }
 
 // ---- MAC contract-stubs (ghost: which MAC entry points ran)
-pub(crate) struct MacLog { pub send: u8, pub join: u8, pub handle_rx: u8, pub rx2_complete: u8, pub resp: u8 }
+/// per handle_rx call (up to 4): what the front-end handed to the MAC -- the frame (length, first byte), the SNR and the window's RF configuration
+pub(crate) struct MacLog { pub send: u8, pub join: u8, pub handle_rx: u8, pub rx2_complete: u8, pub resp: u8,
+    pub rx_len: [usize; 4], pub rx_b0: [u8; 4], pub rx_snr: [i8; 4], pub rx_rf_freq: [u32; 4], pub rx_rf_maxlen: [u8; 4] }
 /// 0: any response kind; 1: the kinds a JOINED session produces (contracts of Session::handle_rx / rx2_complete);
 /// 2: the kinds an OTAA attempt produces (Otaa::handle_rx / rx2_complete)
 pub(crate) static mut MAC_MODE: u8 = 0;
-pub(crate) static mut ML: MacLog = MacLog { send: 0, join: 0, handle_rx: 0, rx2_complete: 0, resp: 0 };
+pub(crate) static mut ML: MacLog = MacLog { send: 0, join: 0, handle_rx: 0, rx2_complete: 0, resp: 0, rx_len: [0; 4], rx_b0: [0; 4], rx_snr: [0; 4], rx_rf_freq: [0; 4], rx_rf_maxlen: [0; 4] };
 fn any_rf() -> radio::RfConfig {
     radio::RfConfig { frequency: tape::u32(), bb: radio::BaseBandModulationParams::new(lora_modulation::SpreadingFactor::_7, lora_modulation::Bandwidth::_125KHz, lora_modulation::CodingRate::_4_5), max_payload_len: tape::u8() }
 }
@@ -77,6 +79,12 @@ fn any_mac_response(k: u8) -> mac::Response {
 }
 pub(crate) fn stub_mac_handle_rx<const N: usize, const D: usize>(_m: &mut Mac, _b: &mut RadioBuffer<N>, _dl: &mut Vec<Downlink, D>, _snr: i8, _rf: &radio::RfConfig) -> mac::Response {
     unsafe {
+        let k = ML.handle_rx as usize;
+        if k < 4 {
+            let fr = _b.as_ref_for_read();
+            ML.rx_len[k] = fr.len(); ML.rx_b0[k] = if fr.is_empty() { 0 } else { fr[0] };
+            ML.rx_snr[k] = _snr; ML.rx_rf_freq[k] = _rf.frequency; ML.rx_rf_maxlen[k] = _rf.max_payload_len;
+        }
         ML.handle_rx += 1;
         let k = tape::stub_u8() % 7;
         ML.resp = match MAC_MODE { 1 => [0u8, 1, 2, 3, 6, 0, 3][k as usize], 2 => [0u8, 5, 0, 5, 0, 5, 0][k as usize], _ => k };
@@ -131,6 +139,8 @@ fn step_contract(ev_kind: usize) {
     let k0 = kind(&s0);
     radio.sending = k0 == 1;
     let w0 = state_windows(&s0);
+    let rf0 = if let State::WaitingForRx(a) = &s0 { Some(a.rf_config) } else { None };
+    let (pkt_len, pkt_b0) = (radio.pkt.len(), radio.pkt[0]);
     let (s1, r) = s0.handle_event::<MockRadio, TapeRng, 64, 1>(&mut mac, &mut radio, &mut rng, &mut buf, &mut dl, event);
     let k1 = kind(&s1);
     let ml = unsafe { &*(&raw const ML) };
@@ -153,6 +163,14 @@ fn step_contract(ev_kind: usize) {
         assert!(k1 == 3 && matches!(r, Ok(Response::NoUpdate)) && rl.calls == 1, "C07 a frame the MAC does not accept leaves the receive window open and issues no radio command");
         if let (State::WaitingForRx(a), State::WaitingForRx(b)) = (&s0, &s1) { assert!(a.rf_config == b.rf_config, "C07 same window configuration"); }
     }
+    // C05/C10/C18: what the MAC gets is the received packet (all of it, nothing else) and the configuration of THE WINDOW IT WAS
+    // RECEIVED IN (its max_payload_len is what the size check of C05 uses)
+    if k0 == 3 && ml.handle_rx == 1 {
+        if let Some(rf) = rf0 {
+            assert!(ml.rx_rf_freq[0] == rf.frequency && ml.rx_rf_maxlen[0] == rf.max_payload_len, "C05/C10 the MAC judges a frame by the window it was received in");
+        }
+        assert!(ml.rx_len[0] == pkt_len && (pkt_len == 0 || ml.rx_b0[0] == pkt_b0), "C18 the MAC is handed exactly the bytes the radio received");
+    }
     // events that make no sense in a state are refused without touching MAC or radio
     if k0 != 0 && ev_kind >= 2 { assert!(r.is_err() && k1 == k0 && ml.send == 0 && ml.join == 0 && rl.calls == 0, "C04 send/join while busy is refused, nothing happens"); }
     if k0 == 0 && ev_kind == 1 { assert!(r.is_err() && rl.calls == 0, "C04 radio event while idle is refused"); }
@@ -172,7 +190,7 @@ fn c06_nb_step_timeoutfired() {
     
     step_contract(0)
 }
-// @verif props=C04,C06,C07,C10 obligation=nb_device::State::handle_event.step[RadioEvent] label=proved-complete tier=quick bound="any state x this event x any radio answer x any MAC answer; A-radio: TxDone/error while sending; MAC layer contract-stubbed"
+// @verif props=C04,C06,C07,C10,C05,C18 obligation=nb_device::State::handle_event.step[RadioEvent] label=proved-complete tier=quick bound="any state x this event x any radio answer x any MAC answer; A-radio: TxDone/error while sending; MAC layer contract-stubbed"
 #[kani::proof]
 #[kani::stub(crate::mac::Mac::send, stub_mac_send)]
 #[kani::stub(crate::mac::Mac::join_otaa, stub_mac_join)]
